@@ -1,5 +1,6 @@
 import Sheens.Driver.Match
 import Sheens.Driver.Engine
+import Sheens.Driver.Crew
 
 /-! `driver`: one JSON op per line in, one JSON verdict line out. -/
 
@@ -10,6 +11,7 @@ def dispatch (j : Json) : Json :=
   | "match" => Driver.handleMatch j
   | "walk" => Driver.handleWalk j
   | "step" => Driver.handleStep j
+  | "crew" => Driver.handleCrew j
   | op => Json.mkObj [("error", Json.str ("unknown op " ++ op))]
 
 partial def loop (hin : IO.FS.Stream) (hout : IO.FS.Stream) : IO Unit := do
